@@ -13,6 +13,7 @@ import (
 )
 
 func init() {
+	Workers["e2e-up4-scope"] = e2eUp4ScopeWorker
 	Workers["e2e-up4"] = e2eUp4Worker
 	Checks["C04"] = C04
 }
@@ -30,7 +31,7 @@ type Up4Params struct {
 	AddFlows  bool   `json:"addFlows"`
 	Snap      bool   `json:"snap"`
 	Race      bool   `json:"race"`
-	Wide      bool   `json:"wide"` // boundary values (C16)
+	Wide      bool   `json:"wide"`    // boundary values (C16)
 	Markers   int    `json:"markers"` // C14: 1 = end markers enabled and asked for, 2 = asked for but disabled in the configuration
 }
 
@@ -187,12 +188,227 @@ func C04(c *core.Ctx) {
 	c.SetCov("rule", "seeded randomised PFCP histories on the UP4 datapath (1-3 associations, up to 5 live sessions sharing gNB peers and application "+
 		"filters, FAR/QER/PDR updates, flows added and removed, association release, agent kill + restart against the populated switch, random slice id / "+
 		"QFI->TC map / default TC) executed against the real agent process and the harness' P4Runtime server; every step's switch state judged by "+
-		"Up4Image!TablesAreImage; evaluations = script steps; distinct_nontrivial = accepted session requests")
+		"Up4Image!TablesAreImage; in addition every applicable sequence of 4 (thorough: 5) operations over {establish A, establish B, A forwards to gNB 0 / gNB 1 / buffers / drops, "+
+		"A loses a flow, A's QER is updated, B moves to gNB 1, delete A, delete B, release A's association} for two sessions of different associations that share gNB and application filters "+
+		"(629 / 4 849 sequences, each from the empty state and followed by the deletion of what is left); evaluations = script steps; distinct_nontrivial = accepted session requests")
 
-	res := runE2EShards(c, "e2e-up4", shards, "TraceE2E_C04.cfg", func(i int) interface{} {
+	// bounded-exhaustive part: every applicable sequence of 4 (thorough: 5) operations over two sessions of different
+	// associations that share their gNB and application filters (see scopeOps), each from the empty state
+	scopeShards, scopeLen := 3, 4
+	if c.Thorough() {
+		scopeShards, scopeLen = 14, 5
+	}
+
+	res := runE2EMixed(c, shards+scopeShards, "TraceE2E_C04.cfg", func(i int) (string, interface{}) {
 		d, tr := shardDir(c, i)
-		return Up4Params{Dir: d, Trace: tr, AgentBin: filepath.Join(c.BinDir, "verif-agent"), N4Addr: n4For(i), Seed: c.Seed*1000 + int64(i), Scenarios: scen, Steps: steps,
+		if i >= shards {
+			return "e2e-up4-scope", Up4ScopeParams{Dir: d, Trace: tr, AgentBin: filepath.Join(c.BinDir, "verif-agent"), N4Addr: n4For(i), Seed: c.Seed*1000 + 40 + int64(i),
+				Len: scopeLen, Shard: i - shards, Of: scopeShards}
+		}
+
+		return "e2e-up4", Up4Params{Dir: d, Trace: tr, AgentBin: filepath.Join(c.BinDir, "verif-agent"), N4Addr: n4For(i), Seed: c.Seed*1000 + int64(i), Scenarios: scen, Steps: steps,
 			Kill: i%2 == 0, AddFlows: i%3 != 2, Snap: true, Wide: i%3 == 1}
 	})
 	judgeE2E(c, res, map[string]bool{"InEnvelope": true, "Up4Envelope": true})
+}
+
+// Up4ScopeParams parameterises the bounded-exhaustive worker: every applicable sequence of length Len over the
+// operation alphabet below, the sequences whose index is Shard modulo Of.
+type Up4ScopeParams struct {
+	Dir      string `json:"dir"`
+	Trace    string `json:"trace"`
+	AgentBin string `json:"agentBin"`
+	N4Addr   string `json:"n4"`
+	Seed     int64  `json:"seed"`
+	Len      int    `json:"len"`
+	Shard    int    `json:"shard"`
+	Of       int    `json:"of"`
+}
+
+// the alphabet: two sessions A (association p1) and B (association p2) of the same shape - they share their gNB and
+// their application filters - and what a control plane does to them
+var scopeOps = []string{"EA", "EB", "A:fwd0", "A:fwd1", "A:buff", "A:drop", "A:rmflow", "A:qer", "B:fwd1", "DA", "DB", "XA"}
+
+func e2eUp4ScopeWorker(args []string) error {
+	var p Up4ScopeParams
+	if err := json.Unmarshal([]byte(args[0]), &p); err != nil {
+		return err
+	}
+
+	rng := rand.New(rand.NewSource(p.Seed))
+	sum := E2ESummary{Stats: map[string]int{}}
+
+	defer func() {
+		b, _ := json.Marshal(sum)
+		_ = os.WriteFile(p.Trace+".summary", b, 0o644)
+	}()
+
+	cfg := up4Cfg(rng, p.N4Addr)
+	cfg.UEIPAlloc = false
+
+	w, err := e2e.NewWorld(filepath.Join(p.Dir, "w"), p.AgentBin, p.Trace, cfg, int(p.Seed%1000)*1000+1)
+	if err != nil {
+		sum.Err = err.Error()
+		return err
+	}
+
+	defer func() {
+		sum.Lines, sum.Steps, sum.Accepted, sum.Died = w.Lines, w.Steps, w.Accepted, w.Died
+		w.Close()
+	}()
+
+	if err := w.StartAgent(); err != nil {
+		sum.Err = err.Error()
+		return err
+	}
+
+	g := e2e.NewUp4Gen(w, rng.Int63(), 2, 10, false)
+	shape := rng.Int63()
+
+	g.MinFlows, g.AlwaysQer = 2, true // a flow can be removed, a QER can be updated
+
+	assoc := map[string]bool{}
+	ensure := func(peer string) {
+		if !assoc[peer] {
+			w.Assoc(peer)
+			assoc[peer] = true
+		}
+	}
+
+	idx := -1
+
+	var run func(prefix []string, a, b bool)
+
+	var seqs [][]string
+
+	// enumerate applicable sequences (A / B live or not is all the applicability needs)
+	run = func(prefix []string, a, b bool) {
+		if len(prefix) == p.Len {
+			seqs = append(seqs, append([]string(nil), prefix...))
+			return
+		}
+
+		for _, op := range scopeOps {
+			na, nb := a, b
+
+			switch {
+			case op == "EA":
+				if a {
+					continue
+				}
+
+				na = true
+			case op == "EB":
+				if b {
+					continue
+				}
+
+				nb = true
+			case op == "DA" || op == "XA":
+				if !a {
+					continue
+				}
+
+				na = false
+			case op == "DB":
+				if !b {
+					continue
+				}
+
+				nb = false
+			case op[0] == 'A':
+				if !a {
+					continue
+				}
+			case op[0] == 'B':
+				if !b {
+					continue
+				}
+			}
+
+			run(append(prefix, op), na, nb)
+		}
+	}
+	run(nil, false, false)
+
+	sum.Stats["sequences_total"] = len(seqs)
+
+	for _, sq := range seqs {
+		idx++
+
+		if idx%p.Of != p.Shard || w.Died {
+			continue
+		}
+
+		ensure("p1")
+		ensure("p2")
+
+		type S = interface {
+			Live() bool
+			Flows() int
+		}
+
+		var sa, sb S
+
+		estab := func(peer string) S {
+			g.Reseed(shape) // the same shape for both: same gNB, same application filters
+			if g.Establish(peer) {
+				return g.Last()
+			}
+
+			return nil
+		}
+
+		for _, op := range sq {
+			if w.Died {
+				break
+			}
+
+			switch op {
+			case "EA":
+				sa = estab("p1")
+			case "EB":
+				sb = estab("p2")
+			case "DA":
+				if sa != nil && sa.Live() {
+					g.DeleteAny(sa)
+				}
+			case "DB":
+				if sb != nil && sb.Live() {
+					g.DeleteAny(sb)
+				}
+			case "XA":
+				w.Release("p1")
+				assoc["p1"] = false
+				g.MarkEnded("p1")
+			case "A:fwd0", "A:fwd1", "A:buff", "A:drop":
+				if sa != nil && sa.Live() {
+					g.SetDlAny(sa, op[2:5], int(op[len(op)-1]-'0'))
+				}
+			case "B:fwd1":
+				if sb != nil && sb.Live() {
+					g.SetDlAny(sb, "fwd", 1)
+				}
+			case "A:rmflow":
+				if sa != nil && sa.Live() && sa.Flows() > 1 {
+					g.ModifyAny(sa, e2e.ModRemove)
+				}
+			case "A:qer":
+				if sa != nil && sa.Live() {
+					g.Reseed(shape + 7)
+					g.ModifyAny(sa, e2e.ModQer)
+				}
+			}
+		}
+
+		// back to the empty state: what is left is deleted (and judged)
+		g.Finish()
+		sum.Scenarios++
+	}
+
+	for k, v := range g.Stats {
+		sum.Stats[k] += v
+	}
+
+	return nil
 }
